@@ -113,22 +113,25 @@ def build_profile(Lmod, kind, vals, pol):
                                          laser_wavelength=vals["Fwl"], polarization=p)
 
 
-def apply_ops(obj, ops):
+def apply_ops(obj, ops, laser=None):
     from raysect.optical import Vector3D
     for op in ops:
         try:
             if op[0] == "pol":
                 obj.set_polarization(Vector3D(*op[1]))
+            elif op[0] == "attach":
+                if laser is not None:
+                    laser.laser_profile = obj
             else:
                 setattr(obj, ATTR.get(op[1], op[1]), op[2])
-        except (ValueError, AttributeError):
+        except (ValueError, AttributeError, ZeroDivisionError):
             pass
 
 
 def last_pol(case):
     pol = case["pol"]
     for o in case["ops"]:
-        if o[0] == "pol":
+        if o[0] == "pol" and any(x * x > 0 for x in o[1]):       # a zero vector (also after underflow of the squares) is rejected
             pol = o[1]
     return pol
 
@@ -156,7 +159,7 @@ def attach(obj):
 def same(a, b, pol_tol=False):
     if pol_tol:     # normalising an already normalised vector may move it by an ulp
         return all(abs(x - y) <= 4e-16 for x, y in zip(a, b))
-    return a == b
+    return a == b or repr(a) == repr(b)        # repr: nan == nan, 0.0 != -0.0 is not required
 
 
 def fresh_vs_mutated_profile(Lmod, case, obj, laser, c, rng):
@@ -189,7 +192,7 @@ def minimise_history(Lmod, case, c, rng, observable):
         except ValueError:
             return None
         l1 = attach(o1)
-        apply_ops(o1, [op])
+        apply_ops(o1, [op], l1)
         k, _ = fresh_vs_mutated_profile(Lmod, c1, o1, l1, c, rng)
         if k not in (None, "skip"):
             return op
@@ -257,7 +260,7 @@ def search_profile(Lmod, case, obs, obj, laser, c, rng, heavy, stats):
         stats["fresh_vs_mutated"] += 1
         if k is not None:
             op = minimise_history(Lmod, case, c, rng, k)
-            setter = (ATTR.get(op[1], op[1]) if op[0] == "set" else "set_polarization") if op else "history"
+            setter = (ATTR.get(op[1], op[1]) if op[0] == "set" else {"pol": "set_polarization", "attach": "re-attach"}[op[0]]) if op else "history"
             fails.append({"key": "c18:stale:%s.%s:%s" % (cls, setter, k),
                           "claim": "%s after %s differs from a freshly constructed object with the reported parameters in: %s"
                                    % (cls, ("`obj.%s = %r`" % (setter, op[2]) if op and op[0] == "set" else "the setter history"), k),
@@ -420,7 +423,7 @@ def search_spectrum(Lmod, case, obs, obj, rng, stats):
         # unit power of the density itself and sum to one when the range spans the line
         k = rng.uniform(8.5, 12.0)
         bn = rng.choice([1, 2, 5, 16, 33])
-        span = build_spectrum(Lmod, kind, mean - k * std, mean + k * std, bn, mean, std) if mean - k * std > 0 else None
+        span = build_spectrum(Lmod, kind, mean - k * std, mean + k * std, bn, mean, std) if 0 < mean - k * std < mean + k * std else None
         if span is not None:
             stats["spectrum_sum_to_one"] += 1
             tot = math.fsum(float(p) * float(span.delta_wavelength) for p in span.power_spectral_density)
@@ -431,4 +434,163 @@ def search_spectrum(Lmod, case, obs, obj, rng, stats):
             if abs(unit - 1.0) > tol:
                 fails.append({"key": "c18:gaussian-density-unit", "claim": "GaussianSpectrum(x) does not integrate to one", "case": case, "integral": unit,
                               "mean": mean, "stddev": std})
+    return fails
+
+
+# ---------------------------------------------------------------------------------------------
+# every step of a history: the live object against a freshly built one
+# ---------------------------------------------------------------------------------------------
+def step_check_profile(Lmod, kind, obj, laser, pol, case, stats):
+    rep = {f: float(getattr(obj, ATTR[f])) for f in KIND_FIELDS[kind]}
+    if any(not (rep[f] > 0 and math.isfinite(rep[f])) for f in POSITIVE[kind]):
+        return None
+    stats["per_step_fresh_checks"] += 1
+    vals = dict(case["args"])
+    vals.update(rep)
+    fresh = build_profile(Lmod, kind, vals, pol)
+    flaser = attach(fresh)
+    sx = rep.get("Fsx", rep.get("Fsw", 0.01))
+    pts = [(0.0, 0.0, rep.get("Fmz", rep.get("Fwz", 0.25))), (0.6 * sx, -0.3 * rep.get("Fsy", sx), 0.4)]
+    a, b = observe_profile(obj, laser, kind, pts), observe_profile(fresh, flaser, kind, pts)
+    for k in a:
+        if not same(a[k], b[k], pol_tol=(k == "polarisation")):
+            op = case["ops"][-1] if case["ops"] else None
+            what = "construction" if op is None else ("`%s`" % (("obj.%s = %r" % (ATTR.get(op[1], op[1]), op[2])) if op[0] == "set" else op[0]))
+            return {"key": "c18:step:%s:%s" % (CLASSNAME[kind], k),
+                    "claim": "%s: after call %d of the history (%s) the live object differs from a freshly constructed one in: %s"
+                             % (CLASSNAME[kind], len(case["ops"]), what, k),
+                    "case": case, "points": pts, "live": a, "fresh": b}
+    return None
+
+
+def step_check_spectrum(Lmod, kind, obj, case, stats):
+    stats["per_step_fresh_checks"] += 1
+    lo, hi, bins = float(obj.min_wavelength), float(obj.max_wavelength), int(obj.bins)
+    mean, std = (float(obj.mean), float(obj.stddev)) if kind == "SGauss" else (0.0, 0.0)
+    fresh = build_spectrum(Lmod, kind, lo, hi, bins, mean, std)
+    xs = [lo, hi, 0.5 * (lo + hi)]
+    a, b = observe_spectrum(obj, kind, xs), observe_spectrum(fresh, kind, xs)
+    for k in a:
+        if not same(a[k], b[k]):
+            op = case["ops"][-1] if case["ops"] else None
+            return {"key": "c18:step:%s:%s" % ("ConstantSpectrum" if kind == "SConst" else "GaussianSpectrum", k),
+                    "claim": "%s: after call %d of the history (%r) the live object differs from a freshly constructed one in: %s"
+                             % ("ConstantSpectrum" if kind == "SConst" else "GaussianSpectrum", len(case["ops"]), op, k),
+                    "case": case, "live": a, "fresh": b}
+    return None
+
+
+# ---------------------------------------------------------------------------------------------
+# other routes and entry points
+# ---------------------------------------------------------------------------------------------
+def search_routes(Lmod, rng, n, stats):
+    from raysect.optical import World, Vector3D
+    from cherab.core.laser import Laser
+    from cherab.core.model.laser.profile import generate_segmented_cylinder
+    fails = []
+    kinds = ["KUniform", "KBiv", "KTri", "KBeam"]
+
+    def rl():
+        r = rng.choice([rng.uniform(0.005, 0.1), 2.0 ** -rng.randint(3, 6)])
+        return r, r * rng.choice([rng.uniform(0.3, 1.9), rng.uniform(2, 30), 2.0 * rng.randint(1, 12)])
+
+    def geo(laser):
+        return cyl_data(laser.get_geometry())
+
+    def expect(r, L):
+        return cyl_data(Lmod.UniformEnergyDensity(1.0, L, r).generate_geometry())
+
+    for i in range(n):
+        kind = kinds[i % 4]
+        cls = getattr(Lmod, CLASSNAME[kind])
+        (r0, L0), (r1, L1), (r2, L2), (r3, L3) = rl(), rl(), rl(), rl()
+        # ---- Laser-node routes: two nodes listen to one profile; a profile is replaced; re-attached; configure_geometry()
+        stats["laser_routes"] += 1
+        p, q = cls(laser_radius=r0, laser_length=L0), cls(laser_radius=r1, laser_length=L1)
+        la, lb = Laser(parent=World()), Laser(parent=World())
+        la.laser_profile = p
+        lb.laser_profile = p
+        p.laser_length = L2
+        steps = [("two nodes share a profile, laser_length changed", geo(la), expect(r0, L2)), ("second node", geo(lb), expect(r0, L2))]
+        la.laser_profile = q                      # p replaced on node a: a must follow q only, b still follows p
+        p.laser_radius = r3
+        steps += [("node whose profile was replaced (old profile changed afterwards)", geo(la), expect(r1, L1)),
+                  ("node still attached to the old profile", geo(lb), expect(r3, L2))]
+        q.laser_length = L3
+        steps.append(("node after its new profile changed", geo(la), expect(r1, L3)))
+        la.laser_profile = q                      # same profile assigned again
+        la.configure_geometry()
+        la.configure_geometry()
+        steps.append(("same profile assigned again + configure_geometry() twice", geo(la), expect(r1, L3)))
+        steps.append(("children of the node", len(la.children), len(la.get_geometry())))
+        la.laser_profile = p                      # back to the first profile
+        q.laser_length = L0
+        steps.append(("node re-attached to the first profile", geo(la), expect(r3, L2)))
+        for what, got, want in steps:
+            if got != want:
+                fails.append({"key": "c18:laser-route", "claim": "%s: Laser node geometry differs from that of a fresh object (%s)" % (CLASSNAME[kind], what),
+                              "radii_lengths": [(r0, L0), (r1, L1), (r2, L2), (r3, L3)], "got": got[:6] if isinstance(got, list) else got,
+                              "want": want[:6] if isinstance(want, list) else want})
+                break
+        # ---- generate_segmented_cylinder called directly == generate_geometry()
+        if cyl_data(generate_segmented_cylinder(r0, L0)) != expect(r0, L0):
+            fails.append({"key": "c18:segment-function", "claim": "generate_segmented_cylinder(r, L) differs from profile.generate_geometry()", "r": r0, "L": L0})
+        # ---- values of a rejected type leave the object untouched
+        stats["type_rejections"] += 1
+        pts = [(0.0, 0.0, 0.1)]
+        before = observe_profile(p, lb, kind, pts)
+        for attr in [ATTR[f] for f in KIND_FIELDS[kind]]:
+            for bad in ("3", None, [1.0]):
+                try:
+                    setattr(p, attr, bad)
+                    outcome = "accepted"
+                except TypeError:
+                    outcome = "TypeError"
+                except Exception as e:      # noqa: recorded below
+                    outcome = type(e).__name__
+                if outcome != "TypeError":
+                    fails.append({"key": "c18:type-rejection", "claim": "%s.%s = %r: expected TypeError, got %s" % (CLASSNAME[kind], attr, bad, outcome)})
+        try:
+            p.set_polarization((0.0, 1.0, 0.0))
+            fails.append({"key": "c18:type-rejection", "claim": "set_polarization accepted a tuple"})
+        except TypeError:
+            pass
+        after = observe_profile(p, lb, kind, pts)
+        if not all(same(before[k], after[k]) for k in before):
+            fails.append({"key": "c18:type-rejection-state", "claim": "%s changed although every assignment raised TypeError" % CLASSNAME[kind],
+                          "before": before, "after": after})
+        # ---- spectra: _get_bin_power_spectral_density called directly with the bin edges / with intervals that overlap the range partly
+        stats["direct_bin_calls"] += 1
+        lo = rng.uniform(300, 1400)
+        hi = lo + rng.choice([0.2, 2.0, 40.0]) * rng.uniform(0.5, 1.5)
+        bins = rng.choice([1, 2, 3, 7, 10])
+        cs = Lmod.ConstantSpectrum(lo, hi, bins)
+        gs = Lmod.GaussianSpectrum(lo, hi, bins, lo + rng.uniform(0.2, 0.8) * (hi - lo), rng.uniform(0.05, 0.5) * (hi - lo))
+        for sp in (cs, gs):
+            delta = float(sp.delta_wavelength)
+            e = float(sp.wavelengths[0]) - delta * 0.5
+            for j in range(bins):
+                direct = float(sp._get_bin_power_spectral_density(e, e + delta))
+                if direct != float(sp.power_spectral_density[j]):
+                    fails.append({"key": "c18:direct-bin-call", "claim": "%s._get_bin_power_spectral_density(edges of bin %d) differs from power_spectral_density[%d]"
+                                                                        % (type(sp).__name__, j, j), "min": lo, "max": hi, "bins": bins, "direct": direct,
+                                  "array": float(sp.power_spectral_density[j])})
+                    break
+                e = e + delta
+            for name, setter_val in (("bins", 0), ("min_wavelength", "x"), ("bins", "2")):
+                try:
+                    setattr(sp, name, setter_val)
+                    fails.append({"key": "c18:type-rejection", "claim": "%s.%s = %r accepted" % (type(sp).__name__, name, setter_val)})
+                except (TypeError, ValueError):
+                    pass
+        w = hi - lo
+        for (a_, b_) in [(lo - 0.5 * w, lo + 0.25 * w), (hi - 0.1 * w, hi + w), (lo - w, hi + w), (hi + 0.1 * w, hi + w), (lo - w, lo - 0.5 * w), (lo, hi)]:
+            got = float(cs._get_bin_power_spectral_density(a_, b_))
+            want = max(0.0, min(b_, hi) - max(a_, lo)) / (w * (b_ - a_))
+            if abs(got - want) > 1e-12 * max(want, 1.0 / w):
+                fails.append({"key": "c18:constant-overlap", "claim": "ConstantSpectrum._get_bin_power_spectral_density(%r, %r) is not overlap / ((max-min) * width)" % (a_, b_),
+                              "min": lo, "max": hi, "got": got, "want": want})
+                break
+        if fails:
+            break
     return fails
